@@ -254,6 +254,51 @@ func c20Cases(c *Ctx, n int) []jsCase {
 			probe()
 		}
 	}
+	// back-to-back calls whose string renderings collide when concatenated without separators
+	// (digits '6' + counter 70  vs  digits '67' + counter 0; algo 'SHA1' + digits '10' vs 'SHA11' + '0'; …)
+	for i := 0; i < n/40+10; i++ {
+		key := rng.Bytes(10)
+		sec := ref.Base32EncodeNoPad(key)
+		ctr := uint64(10 + rng.Intn(990))
+		ds := gen.Pick(rng, []string{"6", "8", "9", "10"})
+		as := gen.Pick(rng, []string{"SHA1", "SHA256", "SHA512"})
+		period := uint64(10 + rng.Intn(90))
+		gh := func(f []string) {
+			var cv uint64
+			if _, err := fmt.Sscan(f[1], &cv); err != nil || fmt.Sprint(cv) != f[1] || cv > 1<<53 {
+				return
+			}
+			kb, derr := ref.Base32Decode(f[0])
+			if derr != nil || f[0] == "" || f[2] == "" || f[3] == "" || ref.Base32EncodeNoPad(kb) != f[0] {
+				return
+			}
+			add(jsCase{Fn: "generateHOTP", Args: []jsArg{sArg(f[0]), nArg(float64(cv)), sArg(f[2]), sArg(f[3])}, Want: ref.HOTP(kb, cv, restDigits(f[2]), restAlgo(f[3])), Note: "field-shifted neighbour of the previous call"})
+		}
+		gt := func(f []string) {
+			var tv, pv uint64
+			if _, err := fmt.Sscan(f[1], &tv); err != nil || fmt.Sprint(tv) != f[1] || tv > 1<<53 {
+				return
+			}
+			if _, err := fmt.Sscan(f[4], &pv); err != nil || fmt.Sprint(pv) != f[4] || pv < 1 || pv > 3600 {
+				return
+			}
+			kb, derr := ref.Base32Decode(f[0])
+			if derr != nil || f[0] == "" || f[2] == "" || f[3] == "" || ref.Base32EncodeNoPad(kb) != f[0] {
+				return
+			}
+			add(jsCase{Fn: "generateTOTP", Args: []jsArg{sArg(f[0]), nArg(float64(tv)), sArg(f[2]), sArg(f[3]), nArg(float64(pv))}, Want: ref.TOTP(kb, int64(tv), pv, restDigits(f[2]), restAlgo(f[3])), Note: "field-shifted neighbour of the previous call"})
+		}
+		oh := []string{sec, fmt.Sprint(ctr), ds, as}
+		for _, v := range gen.ShiftPairs(oh) {
+			gh(oh)
+			gh(v)
+		}
+		ot := []string{sec, fmt.Sprint(ctr * 1000), ds, as, fmt.Sprint(period)}
+		for _, v := range gen.ShiftPairs(ot) {
+			gt(ot)
+			gt(v)
+		}
+	}
 	return out
 }
 
